@@ -175,7 +175,7 @@ def nb2(ctx):
         ctx.missing('ok-true', 'no Ok(true) exit in next_block')
 
 
-@rule('GC12', ['C06', 'C01'], floor=1, template='must-flow')
+@rule('GC12', ['C06', 'C01', 'C17', 'C18'], floor=1, template='must-flow')
 def gc12(ctx):
     """Every file number minted for a new WAL file is registered in the tracker (otherwise the file is
     never accounted for nor reclaimed)."""
@@ -198,6 +198,97 @@ def gc12(ctx):
                       'a FileNumber is minted for a new WAL file without being inserted into the tracked set: the file is invisible to disk accounting and to GC')
     if n == 0:
         ctx.missing('mint', 'no FileNumber::new call in FileTracker methods')
+    # ... and the number minted after `curr` IS curr + 1: numbering may have gaps (files restored, a middle file
+    # removed), so "first + count" or "last seen + 1 of something else" can mint a number that sorts BEFORE a live file --
+    # replay order breaks and the next roll-over re-opens and overwrites that file
+    for b in ctx.f.bodies.values():
+        if not b.path.startswith('rolling::file_number::FileTracker::') or b.is_closure or b.arg_count < 2 or 'FileNumber' not in b.local_ty(2):
+            continue
+        fl = flow_of(b)
+        for m in [cs for cs in b.calls if cs.path.endswith('FileNumber::new')]:
+            af = b.affine(m.args[0], phi=True) if m.args else None
+            if af is None:
+                continue
+            back = fl.backward(set(fl.op_nodes(m.args[0])), skip_mem=True)
+            from_curr = ('l', 2) in back
+            from_self = ('l', 1) in back
+            good = af[1] == 1 and len(af[0]) == 1 and list(af[0].values()) == [1] and from_curr and not from_self
+            # ... and a number is minted only when its successor is NOT tracked yet (the None edge of the look-up in the
+            # tracked set dominates the mint): a fresh `FileNumber` for a number that is already tracked is a second,
+            # separate reference count -- the set keeps the old one, records written through the new one do not pin the file
+            # in the tracker's eyes, and GC unlinks it under them
+            set_calls = [c for c in b.calls if 'BTreeSet' in c.name or 'btree_set' in c.name or 'btree::set' in c.name]
+            # ... or through a read-only method of the tracker itself (`self.next(curr)`)
+            set_calls += [c for c in b.calls if c.node in ctx.f.bodies and ctx.f.bodies[c.node].path.startswith('rolling::file_number::FileTracker::') and ctx.f.bodies[c.node].local_ty(1).startswith('&rolling')
+                          and any('BTreeSet' in c2.name for c2 in ctx.f.bodies[c.node].calls)]
+            t_set = set()
+            for c in set_calls:
+                t_set |= fl.forward(set(fl.call_result_nodes(c)))
+            absent = []
+            for (bi_, pl_, adt_, edges_) in b.discr_switches():
+                if 'None' in edges_ and not pl_['p'] and fl.op_tainted({'k': 'copy', 'place': pl_}, t_set):
+                    absent.append(edges_['None'])
+            for (bi_, c_, te_, fe_, cs_) in b.switches_on_call(lambda c: ('BTreeSet' in c.name) and c.name.endswith('::contains')):
+                absent.append(fe_)
+            only_absent = any(b.edge_dominates(e_, m.point) for e_ in absent)
+            ctx.check(only_absent, '%s:mint-only-when-absent' % b.path, where(b, m.point), 'a number is minted only on the edge where the tracked set has no successor yet',
+                      'a FileNumber is minted for a number that may already be tracked (no look-up in the tracked set guards the mint): the set keeps its own element, the caller gets a second reference count, and the file can be unlinked while records written through the new handle are retained')
+            ctx.check(good, '%s:mint-is-successor' % b.path, where(b, m.point), 'the number minted after `curr` is curr + 1',
+                      'the file number minted by %s is not (the number it was given) + 1%s: with a gapped numbering the new file can sort before a live one -- replay order breaks and a later roll-over re-opens and overwrites that file' %
+                      (b.path.split('::')[-1], ' (it is computed from the tracked set)' if from_self else ''))
+
+
+@rule('GC13', ['C17', 'C06'], floor=1, template='must-pass-through-on-error')
+def gc13(ctx):
+    """A file number minted for a NEW WAL file stays in the tracker only if the file was created: where a body mints
+    a number through the tracker (`FileTracker::inc`, which inserts it) and then creates the file, every path from the
+    FAILURE of the creation to a return removes the number from the tracker again. Otherwise a failed roll-over
+    (`create_new` answering AlreadyExists because something that is not a regular file bears the name: a symbolic
+    link, a directory) leaves a tracked number with no file of the library's making behind it; the caller's retry then
+    finds "the next file" in the tracker and OPENS whatever bears the name -- resizing and writing through the link,
+    outside the directory -- and the disk-usage figure counts a file that does not exist."""
+    FN = 'rolling::file_number::FileNumber'
+    # tracker methods that remove an element
+    removers = set()
+    for b in ctx.f.bodies.values():
+        if b.path.startswith('rolling::file_number::FileTracker::') and any(re.search(r'BTreeSet::<%s>::(remove|take|pop_last|pop_first|retain|clear|split_off)' % re.escape(FN), cs.name) for cs in b.calls):
+            removers.add(b.id)
+    n = 0
+    for b in ctx.f.bodies.values():
+        if b.generic_dup() or b.is_test or b.path.startswith('rolling::file_number::'):
+            continue
+        mints = [cs for cs in b.calls if cs.node is not None and ctx.f.bodies[cs.node].path.startswith('rolling::file_number::FileTracker::')
+                 and any(re.search(r'BTreeSet::<%s>::insert$' % re.escape(FN), c2.name) for c2 in ctx.f.bodies[cs.node].calls)
+                 and any(c2.path.endswith('FileNumber::new') for c2 in ctx.f.bodies[cs.node].calls) and ctx.f.bodies[cs.node].arg_count >= 2]
+        if not mints:
+            continue
+        fl = flow_of(b)
+        rets = b.return_points()
+        undo = [cs.point for cs in b.calls if (cs.node in removers) or re.search(r'BTreeSet::<%s>::(remove|take|pop_last)' % re.escape(FN), cs.name)]
+        for m in mints:
+            t = fl.forward(set(fl.call_result_nodes(m)))
+            creates = [cs for cs in b.calls if cs.node is not None and ctx.E.call_may(cs, 'CREATE') and cs.point in b.reach_after(m.point) and any(fl.op_tainted(a, t) for a in cs.args)]
+            creates += [cs for (p, e, cs) in ctx.E.direct_sites(b) if e == 'CREATE' and p in b.reach_after(m.point) and cs not in creates]
+            for c in creates:
+                if c.dest_local() is None:
+                    continue
+                n += 1
+                re_ = result_edges(b, c.dest_local())
+                errs = list(re_['err'])
+                leak = False
+                if not errs:
+                    # handed on with `?`: the error leaves directly
+                    leak = any(e['kind'] == 'err_prop' and (e.get('call') is c or c in e.get('calls', ())) for e in b.exits())
+                for ed in errs:
+                    if ed[1] in undo:
+                        continue
+                    r_ = b.reach([ed[1]], avoid=undo)
+                    if any(x in r_ for x in rets):
+                        leak = True
+                ctx.check(not leak, '%s:failed-creation-untracks' % b.path, where(b, c.point), 'when the creation of a freshly numbered file fails, the number is removed from the tracker before the error is returned',
+                          'a file number minted by the tracker stays tracked when the creation of its file fails: the next attempt finds it as "the next file" and opens whatever bears that name (a symbolic link is followed, resized and written), and disk usage counts a file that does not exist')
+    if n == 0:
+        ctx.missing('mint-create', 'no body mints a file number through the tracker and then creates the file')
 
 
 @rule('RP3', ['C01', 'C09', 'C02'], floor=1, template='guard-polarity')
@@ -715,6 +806,24 @@ def mq1(ctx):
                     return True
         return False
     n = 0
+    # ... and a queue built for a position is built for a position the CALLER named (a parameter of the function that
+    # inserts it: replay's recorded position) or a constant -- not one remembered from an earlier incarnation, which the
+    # WAL entry of the call (RecordPosition 0 for a created queue) knows nothing about
+    for b in ctx.f.bodies.values():
+        if b.generic_dup() or b.is_test or not b.path.startswith('mem::queues::MemQueues::'):
+            continue
+        kq = 0
+        for cs in b.calls:
+            if not cs.path.endswith('MemQueue::with_next_position') or not cs.args:
+                continue
+            alts = b.affine_alts(cs.args[0])
+            if alts is None:
+                continue
+            kq += 1
+            good = all((not a[0] and True) or (a[1] == 0 and len(a[0]) == 1 and list(a[0].items())[0][0][0] == 'param' and list(a[0].values()) == [1]) for a in alts)
+            ctx.check(good, '%s:position-from-caller#%d' % (b.path, kq), where(b, cs.point), 'the position a queue is built for is a parameter of the inserting function (or a constant)',
+                      'a queue is built for a position that is neither a parameter of %s nor a constant (%s): live state and the WAL entry of the call disagree, replay rebuilds the queue elsewhere' %
+                      (b.path.split('::')[-1], ' | '.join(' + '.join([str(k_[-1]) for k_ in sorted(a[0], key=str)] + ([str(a[1])] if a[1] or not a[0] else [])) for a in alts)))
     for b in ctx.f.bodies.values():
         if b.generic_dup() or b.is_test:
             continue
@@ -811,7 +920,76 @@ def mq3(ctx):
                       (fname, ' + '.join([str(k_[-1]) for k_ in sorted(af[0], key=str)] + ([str(af[1])] if af[1] or not af[0] else []))))
 
 
-@rule('RP6', ['C01', 'C18', 'C02'], floor=3, template='no-reach')
+@rule('MQ4', ['C04', 'C01'], floor=2, template='provenance')
+def mq4(ctx):
+    """The position arithmetic of a queue, where this analysis can read it (affine forms; no verdict elsewhere):
+    `next_position()` answers (position of the LAST record meta) + 1, or `start_position` when there is none;
+    `last_position()` is `next_position() - 1`; the meta pushed by `append_record` carries the position it was asked
+    to append at and the length of the payload buffer BEFORE the payload is added. Each is an off-by-one away from a
+    queue that hands a position out twice or reads a record's bytes from its neighbour."""
+    MQ = 'mem::queue::MemQueue'
+    ret = {'k': 'copy', 'place': {'l': 0, 'p': []}}
+    n = 0
+    nb = ctx.fn('mem::queue::MemQueue::next_position')
+    if nb:
+        b = nb[0]
+        alts = b.affine_alts(ret)
+        readable = alts is not None and all(all(k_[0] == 'mem' and k_[1] in ('RecordMeta.position', 'MemQueue.start_position') for k_ in a[0]) for a in alts)
+        if readable:
+            n += 1
+            want = [({('mem', 'MemQueue.start_position'): 1}, 0), ({('mem', 'RecordMeta.position'): 1}, 1)]
+            good = sorted(alts, key=str) == sorted(want, key=str)
+            # the meta read is the LAST one
+            last_ok = any(re.search(r'::(last|last_mut|next_back)$', cs.name) for cs in b.calls) and not any(re.search(r'::(first|first_mut)$', cs.name) for cs in b.calls)
+            ctx.check(good and last_ok, 'next-is-last-plus-one', b.span, 'next_position() = last meta position + 1 | start_position',
+                      'next_position() answers %s%s, not (position of the last record) + 1 or start_position: positions would be handed out twice or skipped' %
+                      (' | '.join(' + '.join([str(k_[1]) for k_ in sorted(a[0], key=str)] + ([str(a[1])] if a[1] or not a[0] else [])) for a in alts), '' if last_ok else ' (not read from the last meta)'))
+    lb = ctx.fn('mem::queue::MemQueue::last_position')
+    if lb:
+        b = lb[0]
+        alts = b.affine_alts(ret)
+        if alts is not None and all(all(k_[0] == 'call' and k_[1].endswith('MemQueue::next_position') for k_ in a[0]) and a[0] for a in alts):
+            n += 1
+            good = all(list(a[0].values()) == [1] and a[1] == -1 for a in alts)
+            ctx.check(good, 'last-is-next-minus-one', b.span, 'last_position() = next_position() - 1',
+                      'last_position() is not next_position() - 1 (%s)' % ' | '.join('next_position%+d' % a[1] for a in alts))
+    ab = ctx.fn('mem::queue::MemQueue::append_record')
+    if ab and 'mem::queue::RecordMeta' in ctx.f.adts:
+        b = ab[0]
+        flds = [f['name'] for f in ctx.f.adts['mem::queue::RecordMeta']['variants'][0]['fields']]
+        pos_params = [i for i in range(1, b.arg_count + 1) if b.local_ty(i) == 'u64']
+        exts = [cs for cs in b.calls if cs.node is not None and ctx.f.bodies[cs.node].path.startswith('mem::rolling_buffer::RollingBuffer::') and ctx.E.call_may(cs, 'MEM')]
+        for bi, blk in enumerate(b.blocks):
+            if not b.live[bi]:
+                continue
+            for si, st in enumerate(blk['stmts']):
+                if st['k'] != 'assign' or st['rv']['k'] != 'agg' or strip_crate(st['rv'].get('adt') or '') != 'mem::queue::RecordMeta':
+                    continue
+                p = b.pstart[bi] + si
+                ops = dict(zip(flds, st['rv']['ops']))
+                if 'position' in ops and len(pos_params) == 1:
+                    af = b.affine(ops['position'])
+                    if af is not None:
+                        n += 1
+                        ctx.check(af == ({('param', pos_params[0]): 1}, 0), 'meta-position-is-target', where(b, p), 'the pushed meta carries the position asked for',
+                                  'the record meta pushed by append_record carries %s, not the position it was asked to append at' % (' + '.join([str(k_[-1]) for k_ in sorted(af[0], key=str)] + ([str(af[1])] if af[1] or not af[0] else []))))
+                if 'start_offset' in ops:
+                    af = b.affine(ops['start_offset'], phi=True)
+                    if af is not None and af[0]:
+                        n += 1
+                        lens = [k_ for k_ in af[0] if k_[0] == 'call' and k_[1].endswith('RollingBuffer::len')]
+                        good = af[1] == 0 and len(af[0]) == 1 and len(lens) == 1 and af[0][lens[0]] == 1
+                        # read before the payload goes in
+                        lc = [cs for cs in b.calls if cs.path.endswith('RollingBuffer::len') and b.dominates(cs.point, p)]
+                        before = bool(lc) and not any(b.dominates(e.point, c.point) for e in exts for c in lc)
+                        ctx.check(good and before, 'meta-offset-is-length-before', where(b, p), 'the pushed meta starts at the length of the payload buffer before the payload is added',
+                                  'the record meta pushed by append_record starts at %s%s, not at the length of the payload buffer before this payload is added: the record would be read back from its neighbour\'s bytes' %
+                                  (' + '.join([str(k_[1]).split('::')[-1] + '()' if k_[0] == 'call' else str(k_[-1]) for k_ in sorted(af[0], key=str)] + ([str(af[1])] if af[1] else [])), '' if before or not good else ' (read after the payload was added)'))
+    if n == 0:
+        ctx.missing('forms', 'none of next_position / last_position / the pushed RecordMeta could be read as affine forms')
+
+
+@rule('RP6', ['C01', 'C18', 'C02', 'C09'], floor=3, template='no-reach')
 def rp6(ctx):
     """Replay fails the open only for an AppendRecords entry that cannot be applied. A Truncate, RecordPosition or
     DeleteQueue entry whose queue replay does not know is NORMAL -- the files that created the queue were reclaimed
@@ -837,6 +1015,17 @@ def rp6(ctx):
                   'replaying a %s entry can make open fail (%s): after an ordinary delete / truncate + GC the entry refers to a queue replay no longer knows, and every other queue becomes unreadable' % (kind, b.loc(bad[0]['point']) if bad else '-'))
     if n == 0:
         ctx.missing('arms', 'no Truncate / RecordPosition / DeleteQueue replay arm found')
+    # ... and open manufactures a Corruption of its own only there: a `Corruption` error value BUILT in the open body lies in
+    # the AppendRecords arm (the one entry kind whose failure to apply means undetected damage). A verdict passed after the
+    # loop ("corrupted entries were seen and nothing could be rebuilt: refuse") turns damage that cost one entry into a
+    # log that cannot be opened at all.
+    if 'AppendRecords' in arms:
+        (a_edge, a_region) = arms['AppendRecords']
+        a_reach = b.reach([a_edge[1]], avoid=[cs0.point])
+        built = [e for e in b.exits() if e['kind'] == 'err' and e.get('variant') == 'Corruption']
+        outside = [e for e in built if e['point'] not in a_reach and e.get('ret_point', e['point']) not in a_reach]
+        ctx.check(not outside, 'corruption-only-from-append-arm', where(b, outside[0]['point']) if outside else b.span, 'open builds a Corruption error only inside the AppendRecords arm of replay',
+                  'open can fail with a Corruption of its own making outside the replay of an AppendRecords entry (%s): damage that costs one entry would make the whole log unopenable' % ', '.join(b.loc(e['point']) for e in outside))
 
 
 @rule('FH3', ['C06', 'C01'], floor=1, template='provenance+guard')
